@@ -61,6 +61,7 @@ type acq struct {
 	a  core.Ammo
 	ok bool
 	pn bool // Acquire panicked
+	t0, t1 time.Time // wall clock before / after the Acquire call
 }
 
 // RunProvider builds the real provider (components/providers/http NewProvider) over a
@@ -86,11 +87,18 @@ func RunProviderOpt(decoder string, file []byte, k int, passes, limit uint, prel
 
 // RunProviderCfg: as RunProviderOpt, with the provider's configured `headers` list.
 func RunProviderCfg(decoder string, file []byte, k int, passes, limit uint, preload bool, headers []string) string {
+	return RunProviderX(decoder, file, k, passes, limit, preload, ProvOpts{Headers: headers})
+}
+
+// RunProviderX: as RunProviderCfg, with every provider option of ProvOpts (configured headers, middlewares).
+func RunProviderX(decoder string, file []byte, k int, passes, limit uint, preload bool, o ProvOpts) string {
+	headers := o.Headers
+	mws, stamps := o.build()
 	fs := afero.NewMemMapFs()
 	if err := afero.WriteFile(fs, "ammo", file, 0o644); err != nil {
 		return "harness-error"
 	}
-	conf := config.Config{Decoder: config.DecoderType(decoder), File: "ammo", Passes: passes, Limit: limit, Preload: preload, Headers: headers}
+	conf := config.Config{Decoder: config.DecoderType(decoder), File: "ammo", Passes: passes, Limit: limit, Preload: preload, Headers: headers, Middlewares: mws}
 	var out []string
 	var prov core.Provider
 	newRes := make(chan string, 1)
@@ -146,8 +154,9 @@ func RunProviderCfg(decoder string, file []byte, k int, passes, limit uint, prel
 					ch <- acq{pn: true}
 				}
 			}()
+			t0 := time.Now()
 			a, ok := prov.Acquire()
-			ch <- acq{a: a, ok: ok}
+			ch <- acq{a: a, ok: ok, t0: t0, t1: time.Now()}
 		}()
 		select {
 		case r := <-ch:
@@ -159,7 +168,7 @@ func RunProviderCfg(decoder string, file []byte, k int, passes, limit uint, prel
 			case !r.ok:
 				status = "closed"
 			default:
-				out = append(out, summarize(r.a))
+				out = append(out, stamps.check(summarize(r.a), r.t0, r.t1))
 			}
 		case <-time.After(4 * time.Second):
 			// Acquire blocks: either Run panicked/returned without closing, or hangs
